@@ -312,6 +312,15 @@ def check_case(key, ctx, case, per_call_timeout=5.0):
             return {"clause": f"ensures.{name}", "observed": f"clause evaluation raised {type(e).__name__}: {e}"}
         if not ok:
             return {"clause": f"ensures.{name}", "observed": f"result={result!r:.300}"}
+    if c.result_is is not None:
+        try:
+            want = eval(compile(OldRewriter(sorted(old_env)).visit(ast.parse(c.result_is, mode="eval")) and
+                                ast.fix_missing_locations(OldRewriter(sorted(old_env)).visit(ast.parse(c.result_is, mode="eval"))),
+                                "<result_is>", "eval"), dict(spec_globals(), **env, __old=old_env))
+        except Exception as e:   # noqa: BLE001
+            return {"clause": "ensures.result_is", "observed": f"evaluation raised {type(e).__name__}: {e}"}
+        if not same_value(result, want) and result != want:
+            return {"clause": "ensures.result_is", "observed": f"result={result!r:.200} expected={want!r:.200}"}
     # frame
     if selfobj is not None:
         mods = set()
